@@ -61,6 +61,32 @@ Fixpoint tv_vocab (a : ann) : bool :=
   | _ => false
   end.
 
+(* a generic member of a Union that mentions TypeVars: Optional[List[T]], Union[Dict[str, T], int] *)
+Definition generic_tv_member (a : ann) : bool :=
+  negb (inert a) && match a with AGeneric _ _ _ | ATupleVar _ _ => true | _ => false end.
+
+(* the wider vocabulary of the executable oracle: additionally Unions of plain classes and ONE generic
+   member with TypeVars (the theorems of Props/C07.v cover tv_vocab; for this shape see
+   C07_union_generic_member) *)
+Fixpoint tv_vocab_x (a : ann) : bool :=
+  if inert a then true else
+  match a with
+  | ATypeVar _ => true
+  | AGeneric _ o args =>
+      match origin_kind o with
+      | KElems | KMapping | KItems | KTuple => arity_ok o (List.length args) && forallb tv_vocab_x args
+      | _ => false
+      end
+  | ATupleVar _ e => tv_vocab_x e
+  | AUnion _ args =>
+      (Nat.eqb (List.length (filter is_tv args)) 1 && forallb (fun m => is_tv m || plain_member m) args)
+      || (Nat.eqb (List.length (filter is_tv args)) 0 && Nat.eqb (List.length (filter generic_tv_member args)) 1
+          && forallb (fun m => plain_member m || (generic_tv_member m && tv_vocab_x m)) args)
+  | _ => false
+  end.
+
+Definition plain_match (v : value) (m : ann) : bool := match m with ACls c => isinstance v c | _ => false end.
+
 Section Spec.
   Variable ctx : nat -> option cls.
 
@@ -104,9 +130,66 @@ Section Spec.
         if existsb (fun m => match m with ACls c => isinstance v c | _ => false end) args then []
         else match filter is_tv args with
              | [ATypeVar t] => [{| mp_tv := t; mp_val := v; mp_bare := false; mp_union := true |}]
+             | [] =>
+                 (* no TypeVar member: the positions of the one generic member that mentions TypeVars
+                    (every member is tried; what it binds stays bound) *)
+                 if Nat.eqb (List.length (filter generic_tv_member args)) 1
+                 then flat_map (fun m => if generic_tv_member m then matched false m v else []) args
+                 else []
              | _ => []
              end
     | _ => []
+    end.
+
+  (* Unions with a generic member: the oracle speaks only where the reading is unambiguous - the value
+     reaches no TypeVar position of that member, or the member structurally accepts the value and no
+     plain-class member accepts it as well (then the value IS matched against the member's TypeVars) *)
+  Fixpoint union_clear (a : ann) (v : value) : bool :=
+    let fix zipc (l : list ann) (vs : list value) : bool :=
+      match l, vs with
+      | a0 :: l', v0 :: vs' => union_clear a0 v0 && zipc l' vs'
+      | _, _ => true
+      end in
+    match a with
+    | AGeneric _ o args =>
+        match origin_kind o, args with
+        | KElems, [a0] =>
+            if abc_instance o (class_of v)
+            then match iter_values v with Some l => forallb (union_clear a0) l | None => true end
+            else true
+        | KMapping, [ka; va] =>
+            if abc_instance o (class_of v)
+            then match items_of v with
+                 | Some kvs => forallb (fun kv => union_clear ka (fst kv) && union_clear va (snd kv)) kvs
+                 | None => true
+                 end
+            else true
+        | KItems, [ka; va] =>
+            match pairs_of v with
+            | Some kvs => forallb (fun kv => union_clear ka (fst kv) && union_clear va (snd kv)) kvs
+            | None => true
+            end
+        | KTuple, _ =>
+            match v with
+            | VTuple vs => if Nat.eqb (List.length vs) (List.length args) then zipc args vs else true
+            | _ => true
+            end
+        | _, _ => true
+        end
+    | ATupleVar _ e => match v with VTuple vs => forallb (union_clear e) vs | _ => true end
+    | AUnion _ args =>
+        match filter is_tv args with
+        | [] =>
+            forallb (fun m => if generic_tv_member m
+                              then match matched false m v with
+                                   | [] => true
+                                   | _ => is_must (conforms ctx (erase m) v) && negb (existsb (plain_match v) args)
+                                          && union_clear m v
+                                   end
+                              else true) args
+        | _ => true
+        end
+    | _ => true
     end.
 
   Definition related (c d : cls) : bool := subclass c d || subclass d c.
@@ -152,7 +235,8 @@ Section Spec.
     if negb (Nat.eqb (List.length positions) (List.length vals)) then Unspec else
     let pv := zip_av positions vals in
     let structure := all3 (map (fun p => conforms ctx (erase (fst p)) (snd p)) pv) in
-    let vocab := if forallb tv_vocab positions then Must else Unspec in
+    let vocab := if forallb tv_vocab positions then Must
+                 else if forallb tv_vocab_x positions && forallb (fun p => union_clear (fst p) (snd p)) pv then Must else Unspec in
     let ms := flat_map (fun p => matched true (fst p) (snd p)) pv in
     let per_tv := map (fun i =>
                          let mine := filter (fun p => Nat.eqb (tv_id (mp_tv p)) i) ms in
